@@ -12,6 +12,7 @@ def gen(rng, tier):
     for _ in range(N):
         G, fam = common.random_connected_graph(rng, 1, 6 if tier == "quick" else 8, large_ok=True)
         D = common.random_divisor(rng, G)
+        if rng.random() < 0.12: G, D = common.thin_cut_game(rng); fam = "thincut"
         if rng.random() < 0.12 and G["edges"]:
             G, D = common.scale_game(rng, G, D); fam = fam + "*2^k"
         cases.append({"G": G, "D": D, "fam": fam, "s": rng.randrange(1 << 30)})
